@@ -23,7 +23,8 @@ ASSUMPTIONS = ["reference matcher written from the statement of C19"]
 FLOORS = {"quick": {"model_agreement_checks": 30000, "law_symmetry": 2000, "law_monotonic": 5000,
                     "law_duality": 2000, "law_subscribe": 2000, "law_offer_roundtrip": 50, "law_for_service": 2000,
                     "exhaustive_domains_completed": 3,
-                    "offer_entries_matched_in_decoder_form": 5000}}
+                    "offer_entries_matched_in_decoder_form": 5000,
+                    "offer_roundtrips_with_the_transport_protocol_as_a_plain_number": 2000}}
 
 W_I, W_M, W_N = 0xFFFF, 0xFF, 0xFFFFFFFF
 
@@ -183,6 +184,20 @@ class Checker:
         # run 1 empty; an option twice inside one run - "preserves ... options" means both runs, as they are
         self.rt = getattr(self, "rt", 0) + 1
         a, b = self.opts[0], self.opts[1]
+        # the address-carrying option comes in the forms its declaration allows: transport protocol as the enum member, as the
+        # plain number an application may write (17), or as a number the enum has no member for (132, what the decoder
+        # then leaves in the field); IPv4 / IPv6; endpoint / multicast / SD endpoint
+        import ipaddress as ipa
+        forms = (a,
+                 H.IPv4EndpointOption(address=ipa.IPv4Address("10.1.2.3"), l4proto=17, port=3000),
+                 H.IPv4EndpointOption(address=ipa.IPv4Address("10.1.2.3"), l4proto=132, port=3000),
+                 H.IPv6EndpointOption(address=ipa.IPv6Address("fd00::3"), l4proto=6, port=3000),
+                 H.IPv4MulticastOption(address=ipa.IPv4Address("239.1.2.3"), l4proto=H.L4Protocols.UDP, port=3000),
+                 H.IPv6SDEndpointOption(address=ipa.IPv6Address("fd00::4"), l4proto=17, port=30490),
+                 H.IPv6MulticastOption(address=ipa.IPv6Address("ff05::3"), l4proto=0, port=3000))
+        a = forms[(self.rt // 6) % len(forms)]
+        if with_opts and not isinstance(a.l4proto, H.L4Protocols):
+            ctx.count("offer_roundtrips_with_the_transport_protocol_as_a_plain_number")
         layouts = (((a,), (b,)), ((a,), (a,)), ((a, b), (b,)), ((), (a, b)), ((a, a), ()), ((b,), (a, b)))
         o1, o2 = layouts[self.rt % len(layouts)] if with_opts else ((), ())
         s = C.Service(t[0], t[1], t[2], t[3], options_1=o1, options_2=o2, eventgroups=frozenset({1}))
